@@ -492,6 +492,8 @@ func (eng *Engine) loadContractFile(file string) error {
 			cur.Inst[callee] = m
 		case "use_axiom":
 			cur.UseAxioms = append(cur.UseAxioms, strings.Fields(strings.ReplaceAll(rest, ",", " "))...)
+		case "exp_ops", "exp_in", "exp_out":
+			// exponent-mode contracts (ring.go)
 		case "writes", "immutable":
 			// write-effect contracts (eff.go) read the raw clauses
 		case "ring_mod", "ring_in", "ring_const", "ring_cond", "ring_out", "ring_alias", "ring_relation":
